@@ -7,6 +7,9 @@ import Gotree.Spec.C16Extra
 import Gotree.Spec.C16Doc
 import Gotree.Spec.C16Depth
 import Gotree.Model.C16Cli
+import Gotree.Model.C16CliRun
+import Gotree.Model.C16TopoCli
+import Gotree.Model.C16DepthGo
 
 namespace Gotree.Driver.C16
 open Gotree Gotree.Driver Gotree.C16
@@ -129,13 +132,16 @@ def handleGen (f : List String) : Verdict :=
               match m with
               | .ok o =>
                 let exact := (eraseIds o.t).dump == (eraseIds t).dump
-                let tags := tags ++ tagIf exact "exact" ++ tagIf (lensEq o.t t) "lens-exact" ++ tagIf iob.isSome "index-records" ++ tagIf depthObs.isSome "node-depths"
+                let tags := tags ++ tagIf exact "exact" ++ tagIf (lensEq o.t t) "lens-exact" ++ tagIf iob.isSome "index-records" ++ tagIf depthObs.isSome "node-depths" ++
+                  tagIf (o.t.rooted && depthObs == some (goComputeDepthsRooted o.t)) "depths-go-rooted"
                 if sync != "ok" then ⟨.tie, tags, "draw protocol: the code did not consume the scripted draws"⟩
                 else if !scriptOK then ⟨.tie, tags, "draw protocol: the harness script is not the model's"⟩
                 else if !obsEq o.t t then ⟨.tie, tags, "model tree " ++ o.t.dump⟩
                 else if !indexReady o then ⟨.tie, tags, "model index not ready"⟩
                 else if exact && !(match depthObs with | some ds => depthsOK o.t ds | none => false) then
                   ⟨.tie, tags, "node depths differ from the model's"⟩
+                else if o.t.rooted && exact && depthObs != some (goComputeDepthsRooted o.t) then
+                  ⟨.tie, tags, "node depths differ from the model of computeDepthRecurRooted on the model's tree"⟩
                 else if !(match iob with | some ob => indexTie C04.fnv1a o t ob | none => false) then
                   ⟨.tie, tags, "index records (bitset, counts, HashCode) differ from C04's ReinitIndexes on the model's tree"⟩
                 else ⟨.pass, tags, ""⟩
@@ -151,28 +157,50 @@ def parseNatMatrix (s : String) : Option (List (List Nat)) := (splitTerm ";" s).
 def handleCli (f : List String) : Verdict :=
   match f with
   | [ks, ns, rs, seedS, nbS, outS, variant, argvS, exitS, flags, ntrees, badS, dumps, intsS, lensS] =>
-    match GenKind.parse ks, ns.toInt?, parseBool rs, nbS.toNat?, parseNatMatrix intsS, parseRatMatrix lensS, parseStrList argvS with
-    | some g, some n, some rooted0, some nb, some intsM, some lensM, some argv =>
+    match GenKind.parse ks, ns.toInt?, parseBool rs, nbS.toInt?, parseNatMatrix intsS, parseRatMatrix lensS, parseStrList argvS with
+    | some g, some n, some rooted0, some nbI, some intsM, some lensM, some argv =>
+      let nb := nbI.toNat
       let rooted := if g == .star then false else rooted0
+      let creatable := variant != "badout"
       let tags := "cli" :: ("opts-" ++ variant) :: genTags g n rooted (intsM.headD []) (lensM.headD []) ++ tagIf (exitS == "0") "exit0" ++
-        tagIf (nb > 1) "several-trees" ++ tagIf (outS == "1") "to-file"
+        tagIf (nb > 1) "several-trees" ++ tagIf (outS == "1") "to-file" ++ tagIf (decide (nbI ≤ 0)) "zero-trees" ++
+        tagIf (!creatable) "bad-output"
       -- option handling: the request the model reads off the command-line words must be the one the
       -- harness meant (size, rootedness, number of trees, output, seed)
       let seeded := variant != "noseed"
-      let optsOK := match parseGenArgs (g == .balanced) argv (GenReq.default (g == .balanced)) with
-        | none => false
-        | some r => r.size == n && r.rooted == rooted0 && r.nbtrees == (nb : Int) && r.toFile == (outS == "1") &&
-            (if seeded then r.seed == seedS.toInt? else r.seed == none)
+      match parseGenArgs (g == .balanced) argv (GenReq.default (g == .balanced)) with
+      | none => ⟨.tie, tags, "option handling: the model reads a usage error off the command line"⟩
+      | some req =>
+      let optsOK := req.size == n && req.rooted == rooted0 && req.nbtrees == nbI && req.toFile == (outS == "1") &&
+            (if seeded then req.seed == seedS.toInt? else req.seed == none)
       if !optsOK then ⟨.tie, tags, "option handling: the model reads another request off the command line"⟩ else
       let below := decide (n < (g.min rooted : Int))
       let hasP := flags.contains 'P' || flags.contains 'T'
       let hasE := flags.contains 'E'
+      let runCli := fun (ints : List Nat) (lens : List Rat) =>
+        if g == .star then starCli n lens else run g n rooted ints lens
+      -- the command loop of the model (file creation, one call per tree, stop at the first error)
+      let mo := genCli req creatable fun i => runCli (intsM.getD i []) (lensM.getD i [])
+      let loopTie := (mo.exit == 0) == (exitS == "0") && mo.logged == hasE && toString mo.trees.length == ntrees
       if hasP then ⟨.oracle, "crash" :: tags, "the command crashed or hung"⟩
+      else if !creatable then
+        -- the output file cannot be created: an error, no tree anywhere, a non-zero exit status
+        if ntrees != "0" then ⟨.oracle, tags, "the output file cannot be created, yet trees were written"⟩
+        else if !hasE || exitS == "0" then
+          ⟨.oracle, tags, "the output file cannot be created: no error message or exit status 0 (a calling script sees success, the trees are lost)"⟩
+        else if !loopTie then ⟨.tie, tags, "command loop: the model exits/logs/writes otherwise"⟩
+        else ⟨.pass, "rejected-output" :: tags, ""⟩
+      else if decide (nbI ≤ 0) then
+        -- no tree asked for: nothing may be written (exit status and message are the model's: tie)
+        if ntrees != "0" || badS != "-" then ⟨.oracle, tags, "no tree was asked for, yet something was written"⟩
+        else if !loopTie then ⟨.tie, tags, "command loop: the model exits/logs/writes otherwise"⟩
+        else ⟨.pass, tags, ""⟩
       else if below then
         if ntrees != "0" then ⟨.oracle, tags, "a size below the minimum produced output"⟩
         else if !hasE then ⟨.oracle, tags, "a size below the minimum was not reported as an error"⟩
         else if exitS == "0" then
           ⟨.oracle, "rejected-exit0" :: tags, "a size below the minimum is reported on stderr but the command exits with status 0 (a calling script sees success)"⟩
+        else if !loopTie then ⟨.tie, tags, "command loop: the model exits/logs/writes otherwise"⟩
         else ⟨.pass, "rejected" :: tags, ""⟩
       else if badS != "-" then ⟨.oracle, tags, "the output is not a readable tree: " ++ badS⟩
       else if ntrees != toString nb || exitS != "0" || hasE then
@@ -186,8 +214,6 @@ def handleCli (f : List String) : Verdict :=
           else
             let triples := List.zip ts (List.zip intsM lensM)
             if triples.length != nb then bad "C16.cli draws" else
-            let runCli := fun (ints : List Nat) (lens : List Rat) =>
-              if g == .star then starCli n lens else run g n rooted ints lens
             let tied := triples.all fun (t, ints, lens) =>
               match runCli ints lens with
               | .ok o => obsEq o.t t
@@ -196,8 +222,11 @@ def handleCli (f : List String) : Verdict :=
               match runCli ints lens with
               | .ok o => lensEq o.t t
               | _ => false
-            let tags := tags ++ tagIf lensExact "lens-exact"
+            -- fidelity: the written trees are the model's trees in the model's order, lengths included
+            let loopExact := mo.trees.length == ts.length && (List.zipWith lensEq mo.trees ts).all id
+            let tags := tags ++ tagIf lensExact "lens-exact" ++ tagIf (seeded && loopExact) "loop-exact"
             if !seeded then ⟨.pass, "oracle-only" :: tags, ""⟩
+            else if !loopTie then ⟨.tie, tags, "command loop: the model exits/logs/writes otherwise"⟩
             else if tied then ⟨.pass, tags, ""⟩ else ⟨.tie, tags, "a written tree differs from the model's tree for the replayed draws"⟩
     | _, _, _, _, _, _, _ => bad "C16.cli fields"
   | _ => bad "C16.cli arity"
@@ -207,22 +236,39 @@ def handleTopo (f : List String) : Verdict :=
   | [ns, rs, via, namesS, cls, dumps] =>
     match ns.toInt?, parseBool rs, parseStrList namesS with
     | some n, some rooted, some names =>
+      let viaCli := via.startsWith "cli"
       let minN : Int := if rooted then 2 else 3
       let badNames := !names.isEmpty && ((names.length : Int) != n) && via == "lib"
       let below := decide (n < minN) || badNames
       let dup := hasDup names
+      -- the command: what `-i` brought, whether the output can be opened (model `topoCli`)
+      let unreadable := via == "cli-noinput" || via == "cli-badinput"
+      let creatable := via != "cli-badout"
+      let inp : TopoInput := if unreadable then .unreadable else if viaCli && !names.isEmpty then .names names else .absent
       let tags := ["topo", via, if rooted then "rooted" else "unrooted"] ++ tagIf below "below-min" ++
         tagIf (!below && decide (n ≥ 4)) "nontrivial" ++ tagIf (!names.isEmpty) "names" ++ tagIf badNames "names-mismatch" ++
-        tagIf (!below && !dup) "hyp-names-nodup"
+        tagIf (!below && !dup) "hyp-names-nodup" ++ tagIf unreadable "bad-input" ++ tagIf (!creatable) "bad-output"
       let cl := classOf cls
       -- the command takes the number of tips from the tree given with -i
-      let nEff : Int := if via == "cli" && !names.isEmpty then (names.length : Int) else n
-      let m := allTopologies nEff rooted names
+      let nEff : Int := if viaCli && !names.isEmpty && !unreadable then (names.length : Int) else n
+      let m := allTopologies nEff rooted (if unreadable then [] else names)
+      let mo := topoCli n rooted inp creatable
       if cl == "panic" || cl == "timeout" || cl == "memory" then ⟨.oracle, "crash" :: tags, "the enumerator crashed or did not return: " ++ cls⟩
       else if cl == "malformed" then ⟨.oracle, tags, "the enumerator returned something that is not a tree: " ++ cls⟩
+      else if unreadable || !creatable then
+        -- an input that cannot be read / an output that cannot be opened: an error, a non-zero exit
+        -- status, no tree anywhere
+        if cl != "err" then ⟨.oracle, tags, "the input cannot be read or the output cannot be opened, yet the command reports success"⟩
+        else if cls == "err:exit0" then
+          ⟨.oracle, "rejected-exit0" :: tags, "the input cannot be read or the output cannot be opened: reported on stderr but the exit status is 0"⟩
+        else if mo.exit == 0 then ⟨.tie, tags, "command model does not fail"⟩
+        else ⟨.pass, "rejected-io" :: tags, ""⟩
       else if decide (nEff < minN) || badNames then
         if cl != "err" then ⟨.oracle, tags, "a size below the minimum / a wrong number of names was not rejected"⟩
+        else if cls == "err:exit0" then
+          ⟨.oracle, "rejected-exit0" :: tags, "a size below the minimum is reported on stderr but the command exits with status 0 (a calling script sees success)"⟩
         else if !m.isErr then ⟨.tie, tags, "model does not reject"⟩
+        else if viaCli && mo.exit == 0 then ⟨.tie, tags, "command model does not fail"⟩
         else ⟨.pass, "rejected" :: tags, ""⟩
       else if cl == "err" then ⟨.oracle, tags, "a valid size was rejected"⟩
       else
@@ -246,7 +292,8 @@ def handleTopo (f : List String) : Verdict :=
               let ik := ts.map (topoKey rooted)
               let mk := ms.map (topoKey rooted)
               let tags := tags ++ tagIf (ik == mk) "same-order"
-              if sortStr ik == sortStr mk then ⟨.pass, tags, ""⟩ else ⟨.tie, tags, "model enumerates another set"⟩
+              if viaCli && !(mo.exit == 0 && mo.trees.length == ts.length) then ⟨.tie, tags, "command model: another exit status or number of trees"⟩
+              else if sortStr ik == sortStr mk then ⟨.pass, tags, ""⟩ else ⟨.tie, tags, "model enumerates another set"⟩
             | _ => ⟨.tie, tags, "model rejects"⟩
     | _, _, _ => bad "C16.topo fields"
   | _ => bad "C16.topo arity"
